@@ -70,6 +70,8 @@ pub struct HalfConnection {
     rto_ms: u64,
 
     time_base: time::Instant,
+    #[cfg(uflow_verif)]
+    verif_t0_ms: u64,
     time_last_flushed: Option<time::Instant>,
     sync_timeout_base_ms: u64,
 
@@ -98,6 +100,8 @@ impl HalfConnection {
             rto_ms: 0,
 
             time_base: time::Instant::now(),
+            #[cfg(uflow_verif)]
+            verif_t0_ms: crate::verif::now_ms(),
             time_last_flushed: None,
             sync_timeout_base_ms: 0,
 
@@ -164,6 +168,8 @@ impl HalfConnection {
 
     pub fn step(&mut self) {
         let now = time::Instant::now();
+        #[cfg(uflow_verif)]
+        let now = crate::verif::instant(now, self.time_base, self.verif_t0_ms);
 
         let now_ms = (now - self.time_base).as_millis() as u64;
         let rtt_ms = self.send_rate_comp.rtt_ms().unwrap_or(INITIAL_RTT_ESTIMATE_MS);
@@ -429,6 +435,35 @@ impl HalfConnection {
         dfe.finalize();
 
         return Ok(());
+    }
+}
+
+#[cfg(uflow_verif)]
+pub mod verif_access {
+    pub use super::send_rate::{SendRateComp, FeedbackData};
+    pub use super::packet_receiver::datagram_is_valid;
+}
+
+#[cfg(uflow_verif)]
+impl HalfConnection {
+    pub fn verif_set_flush_alloc(&mut self, v: isize) {
+        self.flush_alloc = v;
+    }
+
+    pub fn verif_flush_alloc(&self) -> isize {
+        self.flush_alloc
+    }
+
+    pub fn verif_dump(&self) -> String {
+        format!("now={} rtt={} rto={} credit={} fid={} sr={} stb={} pq={} rq={} | snd {} | fq {} | rcv {} | faq {} | src {}",
+                self.now_ms, self.rtt_ms, self.rto_ms, self.flush_alloc, self.flush_id,
+                self.sync_reply as u8, self.sync_timeout_base_ms,
+                self.pending_queue.len(), self.resend_queue.len(),
+                self.packet_sender.verif_dump(),
+                self.frame_queue.verif_dump(),
+                self.packet_receiver.verif_dump(),
+                self.frame_ack_queue.verif_dump(),
+                self.send_rate_comp.verif_dump())
     }
 }
 
